@@ -140,7 +140,7 @@ class C02(PropertyCheck):
             "big: 24 (thorough 150) batches with a sequence dimension at/around 63..66, 127..130, 255..257, "
             "200..260 (thorough ..330) or 9..62 in R, in H or in both, the other dimension equal / +-1..3 / a "
             "third shorter or longer / 0..3, N <= 4 (loss: N*M <= 4), kinds scalar / prefix / mer, equal costs "
-            "70% (unequal only up to 130 x 130), references full / eos in the last slot / short / empty in one "
+            "80% (unequal only up to 130 x 130), references full / eos in the last slot / short / empty in one "
             "batch, hypotheses = prefix, suffix, sub-sequence, append, prepend, insert, substitute, shift of "
             "the reference transcript or random; wide: 12 (thorough 40) batches with N in {63..65, 127..129, "
             "255..257, 1000..1100, 0} (loss: M in {16,17,33,64,65} or N in {33,64,65,129}), R,H <= 4. "
@@ -466,18 +466,24 @@ class C02(PropertyCheck):
             rels.append(prof + "/" + rel)
         return pairs, rels
 
-    def _big_dims(self, rng, size):
+    def _big_dims(self, rng, size, shorter_hyp=None):
         which = rng.choice(["R", "R", "H", "both", "thin"])
         far = max(size // 3, 1)
-        d = rng.choice([-1, -1, -1, -2, -3, 0, 0, 1, 1, 2, -far, far, -(size - 2)])
+        if shorter_hyp is None:
+            d = rng.choice([-1, -1, -1, -2, -3, 0, 0, 1, 1, 2, -far, far, -(size - 2)])
+        elif shorter_hyp:
+            d = rng.choice([-1, -1, -1, -2, -3, -far, -(size - 2)])
+            which = rng.choice(["R", "R", "H", "R", "thin"])
+        else:
+            d = rng.choice([0, 0, 1, 1, 2, far])
         if which == "R":
             R, H = size, max(0, size + d)
         elif which == "H":
             H, R = size, max(0, size - d)
         elif which == "both":
             R, H = size, size + rng.choice([-1, 0, 0, 1])
-        elif rng.random() < 0.5:     # thin: one long dimension, the other very short
-            R, H = size, rng.randint(0, 3)
+        elif shorter_hyp or (shorter_hyp is None and rng.random() < 0.5):
+            R, H = size, rng.randint(0, 3)   # thin: one long dimension, the other very short
         else:
             R, H = rng.randint(0, 3), size
         return R, H
@@ -485,12 +491,17 @@ class C02(PropertyCheck):
     def _big_case(self, rng, tier, i):
         """sequence dimensions of tens to hundreds of positions, few sequences (see BIG_EDGES)"""
         size = self._big_size(rng, tier, i)
-        R, H = self._big_dims(rng, size)
+        # the option that selects a code path (size class) is CROSSED with the options that make a wrong
+        # path visible, not drawn independently: the schedule of sizes has period 12; each size class is
+        # visited once with a shorter hypothesis (deletions) and once with an equal / longer one in every
+        # 24 cases; unequal costs every 5th case (coprime to 12 and to the period 7 of the kinds)
+        R, H = self._big_dims(rng, size, shorter_hyp=(i // 12 + i) % 2 == 0)
         kind = ["scalar", "prefix", "mer", "scalar", "prefix", "scalar", "mer"][i % 7]
         eos_mode = rng.choice(["unset", "in", "in", "absent"])
         A = rng.choice([3, 3, 4, 5, 30])
         eos = None if eos_mode == "unset" else (rng.randrange(A) if eos_mode == "in" else ABSENT_EOS)
-        ins, dl, sub = rng.choice(EQUAL_TRIPLES) if rng.random() < 0.7 else self._costs(rng)
+        ins, dl, sub = rng.choice(EQUAL_TRIPLES) if i % 5 != 4 else \
+            rng.choice(TIE_TRIPLES + OTHER_TRIPLES)
         if not (F(ins) == F(dl) == F(sub)) and R * H > 130 * 130:
             # the implementation's mistakes branch is a python double loop over R x H: keep it affordable
             ins, dl, sub = rng.choice(EQUAL_TRIPLES)
